@@ -84,7 +84,15 @@ func runProgram(c *Case, fsName string, r0 uint64) (trace []string, segs string,
 		case "scan":
 			// a full scan with writers between Next calls: every (key, value) returned, in order
 			it := db.Items()
-			sub := op.Sub
+			sub := append([]SubOp(nil), op.Sub...)
+			if reseeded {
+				// the number of items a scan with writers returns depends on its order, which depends on
+				// the hash seed, which each run has drawn for itself by now: a writer placed after k Next
+				// calls would run in one run and not in another. All writers go first then.
+				for i := range sub {
+					sub[i].At = 0
+				}
+			}
 			n := 0
 			for {
 				for len(sub) > 0 && sub[0].At <= n {
